@@ -112,7 +112,7 @@ class _Span:
 class Task:
     """A Mode-T task (real thread holding or waiting for the baton)."""
     __slots__ = ("name", "fn", "thread", "sem", "state", "pred", "deadline",
-                 "result", "exc", "daemon_task", "timed_out", "held", "what", "daemon_task_ok")
+                 "result", "exc", "daemon_task", "timed_out", "held", "what", "daemon_task_ok", "label")
 
     def __init__(self, name, fn, daemon_task=False):
         self.name = name
@@ -130,6 +130,7 @@ class Task:
         self.held = 0
         self.what = ""
         self.daemon_task_ok = False     # exceptions of this task do not end the run
+        self.label = ""                 # threading.Thread name when the code under test (or python-can) started it
 
 
 class Ctx:
